@@ -447,7 +447,7 @@ func c17Run(t *testing.T, run *Run, sc c17Scenario) {
 			for _, tg := range c.Targets {
 				fg := time.Duration(-1)
 				for _, p := range w.Target(tg.Name).ProbeLog() {
-					if p.Ended && p.Accepted && p.Status >= 200 && p.Status <= 299 {
+					if p.Passed(to.HealthCheckConfig.Timeout) {
 						fg = p.End
 						break
 					}
